@@ -44,7 +44,9 @@ class Setup:
         self.v = vcf2zarr
         rng = ctx.rng
         self.work = pathlib.Path(work)
-        spec = vcfgen.simple_file(rng, nrec=rng.choice([5, 7, 9]), ncontig=1, samples=rng.choice([0, 2]), unused_contigs=False, span=3000)
+        # setup 0 (the only one of the quick tier): samples (3-D arrays) and the default nested chunk layout
+        spec = vcfgen.simple_file(rng, nrec=rng.choice([5, 7, 9]), ncontig=1, samples=2 if tag == 0 else rng.choice([0, 2]),
+                                  unused_contigs=False, span=3000)
         self.spec = spec
         vcf = vcfgen.materialise(spec, self.work / f"in{tag}", "vcf.gz+tbi")
         self.icf = self.work / f"icf{tag}"
@@ -52,7 +54,7 @@ class Setup:
         self.out = self.work / f"z{tag}"
         self.vcs = rng.choice([2, 3])
         self.target = rng.choice([2, 3])
-        self.sep = rng.choice([None, "."])
+        self.sep = None if tag == 0 else rng.choice([None, "."])
         shutil.rmtree(self.out, ignore_errors=True)
         self.traces = {}
         ev, exc = fstrace.traced(self.out, self.fn(("init",)))
@@ -268,7 +270,18 @@ def run(ctx):
                 return range(n + 1) if ctx.thorough else sorted(set(rng.sample(range(n + 1), min(k, n + 1))) | {1, n // 2})
             for k in sorted(set(pick(n_init, 5)) | set(range(max(0, n_init - 8), n_init + 1))):
                 hists.append(("kill init", [(("init",), k)] + allp + [(("finalise",), None)]))
-            for k in pick(n_p[j0], 12):
+            # aimed: right before a chunk's temporary file is renamed into place (the temp file is left behind), for arrays of
+            # every nesting depth (1-D chunks sit directly in the array directory, 2-D/3-D ones in sub-directories)
+            ev0 = su.traces[P(j0)]
+            renames = [i for i, e in enumerate(ev0) if e[0] == "rename" and epmodel.TMP.search(e[1])]
+            by_depth = {}
+            for i in renames:
+                by_depth.setdefault(ev0[i][1].count("/"), []).append(i)
+            aimed = {rng.choice(v) for v in by_depth.values()} | ({renames[0], renames[-1]} if renames else set())
+            if ctx.thorough:
+                aimed = set(renames)
+            ctx.count("kill_partition_before_chunk_rename", len(aimed))
+            for k in sorted(set(pick(n_p[j0], 12)) | aimed):
                 hists.append(("kill partition", [(("init",), None)] + [p for p in allp if p[0] != P(j0)] + [(P(j0), k)]))
             # rerun of an already encoded partition, killed (the swap of p<j>): then finalise must not produce a bad store
             # probe the rerun's own event sequence (it deletes / swaps the existing p<j>) to aim at the swap window
@@ -302,9 +315,10 @@ def run(ctx):
                         h.append((("finalise",), rng.choice([None, rng.randrange(n_fin + 1)])))
                 hists.append(("random", h))
             for label, h in hists:
-                ok = run_history(ctx, su, h, label)
+                nv = len(ctx.violations)
+                run_history(ctx, su, h, label)
                 ctx.count(label.replace(" ", "_"))
-                if ok:
+                if len(ctx.violations) == nv:      # (also when the model correspondence broke: the statement is checked directly)
                     recovery(ctx, su, h, label)
             ctx.sample({"partitions": su.nparts, "arrays": len(su.arrays), "events": {"init": n_init, "partition": n_p, "finalise": n_fin},
                         "example_history": [[list(c), k] for c, k in hists[len(hists) // 2][1]]}, limit=3)
